@@ -14,20 +14,37 @@ decimal.setcontext, restored afterwards — to other time zones (POSIX TZ string
 repeated local hours are computed from the rule by the harness and confirmed by the Lean calendar and by libc),
 locales (incl. a decimal-comma locale compiled with localedef) and decimal contexts.  The expected values come from
 the digits themselves and from the Lean model: neither reads any ambient state.
+
+Interpreter / process state (round 3): the same sample (a few hundred calls of every codec, info-time included) and
+the date-time sample are repeated with the logging system switched on (root logger and the library's loggers at DEBUG
+/ INFO / NOTSET with a handler that formats every record; `logging.disable` lifted), with `sys.stdout` / `sys.stderr`
+replaced by a writer that raises, a closed file and None, with warnings turned into errors, with the global `random`
+reseeded before every call, and in a worker thread; and ONE child interpreter per mode (`python -O`,
+`PYTHONOPTIMIZE=2`, each with another PYTHONHASHSEED) re-runs the sample with the expected values handed over by the
+parent and reports what differs as JSON.  Everything is restored afterwards.
 """
 import ast
+import atexit
 import contextlib
 import datetime
 import decimal
+import errno
 import inspect
+import io
 import json
 import locale
 import logging
 import math
 import os
+import random
 import re
+import subprocess
+import sys
+import tempfile
 import textwrap
+import threading
 import time
+import warnings
 from fractions import Fraction
 
 from common import impl_error, Infra
@@ -521,6 +538,33 @@ def source_numbers(*fns):
                 if math.isfinite(v):
                     out.add(v)
     return out
+
+
+def source_env_names(*modules):
+    """names of the environment variables the source of the given modules reads on this run (os.environ.get / [] /
+    os.getenv with a literal name): each is treated as a switch somebody may have set"""
+    out = set()
+    for mod in modules:
+        try:
+            tree = ast.parse(inspect.getsource(mod))
+        except Exception:  # noqa
+            continue
+        for node in ast.walk(tree):
+            arg = None
+            if isinstance(node, ast.Call) and node.args:
+                fn = node.func
+                name = fn.attr if isinstance(fn, ast.Attribute) else getattr(fn, "id", "")
+                owner = fn.value if isinstance(fn, ast.Attribute) else None
+                owner_txt = ast.dump(owner) if owner is not None else ""
+                if name == "getenv" or (name in ("get", "pop", "setdefault") and "environ" in owner_txt):
+                    arg = node.args[0]
+            elif isinstance(node, ast.Subscript) and "environ" in ast.dump(node.value):
+                arg = node.slice
+            elif isinstance(node, ast.Compare) and any("environ" in ast.dump(c) for c in node.comparators):
+                arg = node.left
+            if isinstance(arg, ast.Constant) and isinstance(arg.value, str):
+                out.add(arg.value)
+    return sorted(out)
 
 
 def ulps(x: float, n: int) -> float:
@@ -1051,11 +1095,168 @@ def custom_locale_dir():
     return path
 
 
+# ---------------------------------------------------------------- interpreter / process state (not an input either)
+# loggers a tracing statement of the library could plausibly ask for (module paths, class names: utils/logging_trait.py
+# names loggers after the class); every logger that exists when the setting is entered is switched as well, and a
+# logger created later without a level of its own follows the root logger
+LIB_LOGGERS = ("okdmr", "okdmr.dmrlib", "okdmr.dmrlib.motorola", "okdmr.dmrlib.motorola.mbxml", "okdmr.dmrlib.motorola.lrrp",
+               "okdmr.dmrlib.motorola.arrp", "mbxml", "lrrp", "MBXML", "MBXMLToken", "MBXMLDocument", "LRRP", "ARRP")
+LOGGING_SETTINGS = {  # name -> (level of the root logger, level of the library's loggers)
+    "root=DEBUG,library=DEBUG": (logging.DEBUG, logging.DEBUG),
+    "root=NOTSET,library=NOTSET": (logging.NOTSET, logging.NOTSET),  # a root logger at NOTSET processes everything
+    "root=INFO,library=INFO": (logging.INFO, logging.INFO),
+    "root=WARNING,library=DEBUG": (logging.WARNING, logging.DEBUG),
+    "root=DEBUG,library=ERROR": (logging.DEBUG, logging.ERROR),
+}
+STDOUT_SETTINGS = ("stdout-raises-OSError", "stdout-closed", "stdout-None", "stdout-ascii-strict", "stdout-isatty", "stdout+stderr-raise-OSError",
+                   "stdout+stderr-None")
+
+
+class _Tty(io.StringIO):
+    """an interactive terminal (what is written goes nowhere)"""
+
+    def isatty(self):
+        return True
+
+
+def _no_trace(frame, event, arg):  # a debugger / coverage tool is attached: sys.gettrace() is not None
+    return None
+LOG_RECORDS = [0]
+
+
+class _Capture(logging.Handler):
+    """what a configured application has: a handler that formats every record it is given (so lazily formatted
+    arguments are consumed as well); the text goes nowhere"""
+
+    def emit(self, record):
+        LOG_RECORDS[0] += 1
+        try:
+            record.getMessage()
+        except Exception:  # noqa   (a real handler reports formatting errors on stderr and goes on)
+            pass
+
+
+class _Broken:
+    """a stream whose consumer went away: every operation raises"""
+
+    encoding = "utf-8"
+    errors = "strict"
+    closed = False
+
+    def _fail(self, *a, **kw):
+        raise OSError(errno.EPIPE, "Broken pipe")
+
+    write = writelines = flush = fileno = _fail
+
+    def writable(self):
+        return True
+
+    def isatty(self):
+        return False
+
+
+@contextlib.contextmanager
+def logging_state(name):
+    root_level, lib_level = LOGGING_SETTINGS[name]
+    root = logging.getLogger()
+    mgr = logging.Logger.manager
+    saved = (mgr.disable, root.level, list(root.handlers), logging.lastResort)
+    loggers = {n: lg for n, lg in list(mgr.loggerDict.items()) if isinstance(lg, logging.Logger)}
+    existed = set(mgr.loggerDict)
+    for n in LIB_LOGGERS:
+        loggers[n] = logging.getLogger(n)
+    levels = {n: (lg.level, lg.disabled, lg.propagate) for n, lg in loggers.items()}
+    cap = _Capture(level=logging.NOTSET)
+    try:
+        logging.disable(logging.NOTSET)
+        root.handlers[:] = [cap]
+        root.setLevel(root_level)
+        for lg in loggers.values():
+            lg.setLevel(lib_level)
+            lg.disabled = False
+        before = LOG_RECORDS[0]
+        root.log(max(root_level, logging.DEBUG), "harness self-test %s", name)
+        logging.getLogger("MBXML").log(max(lib_level, logging.DEBUG), "harness self-test %s", name)
+        if LOG_RECORDS[0] != before + 2:
+            raise Infra(f"logging setting {name} is not in force: {LOG_RECORDS[0] - before} of 2 self-test records arrived")
+        yield
+    finally:
+        for n, lg in loggers.items():
+            lg.setLevel(levels[n][0])
+            lg.disabled, lg.propagate = levels[n][1], levels[n][2]
+        root.handlers[:] = saved[2]
+        root.setLevel(saved[1])
+        logging.lastResort = saved[3]
+        logging.disable(saved[0])
+        for n in set(mgr.loggerDict) - existed:  # loggers made here keep no trace in later settings
+            lg = mgr.loggerDict[n]
+            if isinstance(lg, logging.Logger):
+                lg.setLevel(logging.NOTSET)
+                lg.handlers[:] = []
+
+
+@contextlib.contextmanager
+def stdout_state(name):
+    out, err = sys.stdout, sys.stderr
+    try:
+        if name == "stdout-closed":
+            f = io.StringIO()
+            f.close()
+            sys.stdout = f
+        elif name == "stdout-ascii-strict":  # a C-locale terminal: text outside ASCII cannot be printed
+            sys.stdout = io.TextIOWrapper(io.BytesIO(), encoding="ascii", errors="strict", write_through=True)
+        elif name == "stdout-sink":
+            sys.stdout = io.StringIO()
+        elif name == "stdout-isatty":
+            sys.stdout = _Tty()
+        else:
+            sys.stdout = None if name.endswith("None") else _Broken()
+            if name.startswith("stdout+stderr"):
+                sys.stderr = sys.stdout
+        yield
+    finally:
+        sys.stdout, sys.stderr = out, err
+
+
 @contextlib.contextmanager
 def ambient(cfg):
-    """switch the process' time zone (TZ + tzset), locale (LC_ALL + setlocale) and decimal context inside this
-    process, and put everything back afterwards, whatever happens"""
+    """switch the process' time zone (TZ + tzset), locale (LC_ALL + setlocale), decimal context, logging configuration,
+    standard streams, warning filters and global random state inside this process, and put everything back afterwards,
+    whatever happens"""
     cfg = cfg or {}
+    with contextlib.ExitStack() as stack:
+        if cfg.get("logging") is not None:
+            stack.enter_context(logging_state(cfg["logging"]))
+        if cfg.get("warnings") is not None:
+            stack.enter_context(warnings.catch_warnings())
+            warnings.simplefilter(cfg["warnings"])
+        if cfg.get("settrace") is not None:
+            stack.callback(sys.settrace, sys.gettrace())
+            stack.callback(threading.settrace, None)
+            sys.settrace(_no_trace)
+            threading.settrace(_no_trace)
+        if cfg.get("random") is not None:
+            state = random.getstate()
+            stack.callback(random.setstate, state)
+            random.seed(cfg["random"])
+        if cfg.get("env") is not None:  # environment variables the source under test reads (found by source_env_names)
+            old_env = {k: os.environ.get(k) for k in cfg["env"]}
+            stack.callback(lambda: [os.environ.pop(k, None) if v is None else os.environ.__setitem__(k, v) for k, v in old_env.items()])
+            os.environ.update(cfg["env"])
+        if cfg.get("library_debug") is not None:  # the library's own switch: MBXML.DEBUG (set by from_bytes(debug=True))
+            M = _mbxml()
+            stack.callback(setattr, M, "DEBUG", M.DEBUG)
+            M.DEBUG = bool(cfg["library_debug"])
+            if cfg.get("stdout") is None:
+                stack.enter_context(stdout_state("stdout-sink"))  # what it prints is not the harness' output
+        if cfg.get("stdout") is not None:  # innermost: left first, so nothing of the harness meets the broken stream
+            stack.enter_context(stdout_state(cfg["stdout"]))
+        with _ambient_os(cfg):
+            yield
+
+
+@contextlib.contextmanager
+def _ambient_os(cfg):
     env = {k: os.environ.get(k) for k in _ENV_KEYS}
     loc = locale.setlocale(locale.LC_ALL)
     dctx = decimal.getcontext()
@@ -1264,12 +1465,19 @@ def probe_keys(ctx, M):
         out.append((["uw", v], e.hex()))
         out.append((["ur", (b"\xff" + e + b"\x80").hex(), 1], f"{v} {1 + len(e)}"))
     ss = [0, 1, -1, 63, 64, -64, 65, 8191, 8192, -8192, 2**20, -(2**20), S_MAX, -S_MAX]
+    for k in range(0, 5):  # both sides of every sign-septet boundary (magnitudes whose bit length is a multiple of 7)
+        for m in (64 * 128**k - 1, 64 * 128**k, 64 * 128**k + 1, 128 ** (k + 1) - 1, 128 ** (k + 1)):
+            if m <= S_MAX:
+                ss += [m, -m]
+    ss = list(dict.fromkeys(ss))
     ss += [rng.choice((1, -1)) * rng.randrange(2 ** rng.randrange(1, 32)) for _ in range(60)]
     for v in ss:
         e = enc_s(abs(v), v < 0)
         out.append((["sw", v], e.hex()))
         out.append((["sr", (e + b"\x7f").hex(), 0], f"{v} {len(e)} {-1 if v < 0 else 1}"))
     grid = [(1, 1, 2), (1, 127, 2), (0, 1, 3), (0, 1, 2), (128, 0, 1), (64, 10, 1), (0, 10, 1), (160, 983, 2), (37, 64, 1)]
+    grid += [(i, f, p) for p in (1, 2, 3) for i in (63, 64, 127, 128, 8191, 8192, 16383, 2**20, 2**21 - 1, 2**27, 2**28 - 1, S_MAX)
+             for f in (0, 1, 128**p - 1)]
     grid += [(rng.randrange(2 ** rng.randrange(1, 31)), rng.randrange(128**p), p) for p in (1, 2, 3) for _ in range(25)]
     for (i, f, p) in grid:
         v = i + f / 128**p
@@ -1294,6 +1502,77 @@ def probe_keys(ctx, M):
         out.append((["latd", x.hex()], str(micro_round(x) / 1e6)))
     for x in [3 / 128, 46079 / 128 - 1, 1.5e-6, 359.9999994] + [rng.random() * 359.9 for _ in range(30)]:
         out.append((["lond", x.hex()], str(micro_round(x) / 1e6)))
+    # date-times (every argument form) and the fraction writer on its own
+    its = ["20030630073000", "20000101000000", "20991231235959", "20240229120000", "20380119031408", "20210328023000"]
+    for _ in range(40):
+        y, mo = rng.randrange(2000, 2100), rng.randrange(1, 13)
+        its.append(f"{y:04}{mo:02}{rng.randrange(1, dim(y, mo) + 1):02}{rng.randrange(24):02}{rng.randrange(60):02}{rng.randrange(60):02}")
+    for k, s in enumerate(its):
+        for form in (NAIVE_FORMS if k < 6 else (NAIVE_FORMS[k % 4],)):
+            out.append((["it", s, form], s))
+        out.append((["itb", s, "str"], None))
+    for p in (1, 2, 3):
+        for f in [0, 1, 127, 128**p - 1, 128 ** (p - 1)] + [rng.randrange(128**p) for _ in range(12)]:
+            out.append((["fw", f, p], enc_frac(f, p).hex()))
+    return out
+
+
+def wide_keys(ctx, M, cap=1500):
+    """a fixed, seeded sample of the WHOLE oracle (the value generators of run_uint / run_sint / run_floats / run_latlon /
+    run_infotime, thinned out), with the harness' own expected values: for the settings that change what the interpreter
+    executes (logging switched on, asserts stripped, broken stdout, the library's DEBUG switch)"""
+    rng = ctx.rng
+    out = []
+
+    def thin(vals):
+        vals = list(dict.fromkeys(vals))
+        if len(vals) > cap:
+            vals = vals[:: len(vals) // cap + 1]
+        return vals
+
+    corpus, _dense, bnd, rnd = uint_values(ctx)
+    for v in thin(corpus + list(range(0, 300)) + bnd + rnd[:400]):
+        e = enc_u(v)
+        out.append((["uw", v], e.hex()))
+        out.append((["ur", (b"\x81" + e + b"\x00").hex(), 1], f"{v} {1 + len(e)}"))
+    sb = set()
+    for k in range(0, 5):
+        for base in (64 * 128**k, 128**k, 63 * 128**k, 127 * 128**k):
+            for d in (-1, 0, 1):
+                if 0 <= base + d <= S_MAX:
+                    sb |= {base + d, -(base + d)}
+    for k in range(1, 32):
+        for d in (-1, 0, 1):
+            if 2**k + d <= S_MAX:
+                sb |= {2**k + d, -(2**k + d)}
+    sr = [rng.choice((1, -1)) * rng.randrange(2 ** (bl - 1), 2**bl) for bl in (rng.randrange(1, 32) for _ in range(400))]
+    for v in thin(list(range(-150, 151)) + sorted(sb) + sr):
+        e = enc_s(abs(v), v < 0)
+        out.append((["sw", v], e.hex()))
+        out.append((["sr", (e + b"\xff").hex(), 0], f"{v} {len(e)} {-1 if v < 0 else 1}"))
+    for signed in (False, True):
+        for (i, f, p) in thin(float_grid(ctx, signed)):
+            v = i + f / 128**p
+            if not signed:
+                e = enc_u(i) + enc_frac(f, p)
+                out.append((["ufw", v.hex(), p], e.hex()))
+                out.append((["ufr", e.hex(), 0], fstr(v, len(e))))
+                continue
+            for sgn in (1, -1):
+                e = enc_s(i, sgn < 0 and (i, f) != (0, 0)) + enc_frac(f, p)
+                out.append((["sfw", (sgn * v).hex(), p], e.hex()))
+                out.append((["sfr", e.hex(), 0], fstr(sgn * v if (i, f) != (0, 0) else 0.0, len(e))))
+    for top, op in ((90000000, "lat"), (359999999, "lon")):
+        ms = [c + d for c in (0, 45000000, 90000000, 180000000, 270000000, 359999999) for d in range(-3, 4)]
+        ms += [j * 703125 + d for j in range(0, 513, 7) for d in (-1, 0, 1)] + [rng.randrange(top + 1) for _ in range(250)]
+        for m in thin(m for m in ms if 0 <= m <= top):
+            out.append(([op, m], str(m / 1e6)))
+    for _ in range(250):
+        y, mo = rng.randrange(2000, 2100), rng.randrange(1, 13)
+        s = f"{y:04}{mo:02}{rng.randrange(1, dim(y, mo) + 1):02}{rng.randrange(24):02}{rng.randrange(60):02}{rng.randrange(60):02}"
+        out.append((["it", s, NAIVE_FORMS[len(out) % 4]], s))
+    for s in generic_instants(ctx):
+        out.append((["it", s, NAIVE_FORMS[len(out) % 4]], s))
     return out
 
 
@@ -1319,13 +1598,31 @@ def probe_exec(M, key):
             return hx(b)
         la, lo = xml_latlon(b, bytes(4)) if lat else xml_latlon(bytes(4), b)
         return la if lat else lo
+    if op in ("it", "itb"):
+        b = call(M.write_infotime, it_arg(key[1], key[2]))
+        if isinstance(b, str) or op == "itb":
+            return hx(b)
+        return xml_infotime(b)
+    if op == "fw":
+        return hx(call(M.write_fraction, key[1], key[2]))
     raise ValueError(key)
 
 
-def run_probe(ctx, M, keys, cfg, baseline):
+def run_probe(ctx, M, keys, cfg, baseline, _in_thread=False):
     """the sample of every codec under the ambient setting that is active; returns the results"""
+    if cfg and cfg.get("thread") and not _in_thread:  # the same, but every call is made in a thread that is not the main one
+        box = []
+        th = threading.Thread(target=lambda: box.append(run_probe(ctx, M, keys, cfg, baseline, True)))
+        th.start()
+        th.join()
+        if not box:
+            raise Infra("the worker thread of the ambient probe died")
+        return box[0]
     res = []
+    reseed = cfg.get("random") if cfg else None
     for n, (key, want) in enumerate(keys):
+        if reseed is not None:
+            random.seed(reseed)
         got = probe_exec(M, key)
         res.append(got)
         ref = want if want is not None else (baseline[n] if baseline is not None else None)
@@ -1340,6 +1637,129 @@ def run_probe(ctx, M, keys, cfg, baseline):
     return res
 
 
+# ---------------------------------------------------------------- the same sample in other interpreters
+HARNESS = os.path.dirname(os.path.dirname(os.path.abspath(__file__)))
+CHILD_MODES = {  # name -> (interpreter options, environment, sys.flags.optimize expected in the child)
+    "python -O": (["-O"], {"PYTHONHASHSEED": "1"}, 1),
+    "PYTHONOPTIMIZE=2": ([], {"PYTHONOPTIMIZE": "2", "PYTHONHASHSEED": "4242"}, 2),
+}
+CHILD_TIMEOUT = 120
+
+
+def child_start(mode, items, extra_env=None):
+    """start `python <options>` on the items [[key, expected], …]; the job and the answer travel in files"""
+    argv, env_add, _opt = CHILD_MODES[mode]
+    d = tempfile.mkdtemp(prefix="verif-c14-child-")
+    with open(os.path.join(d, "job.json"), "w") as fh:
+        json.dump({"items": items}, fh)
+    env = dict(os.environ)
+    env.pop("PYTHONOPTIMIZE", None)
+    env.update(env_add)
+    env.update(extra_env or {})
+    env["PYTHONDONTWRITEBYTECODE"] = "1"  # no *.opt-N.pyc next to the sources under test
+    code = f"import sys; sys.path.insert(0, {HARNESS!r}); import props.c14 as m; sys.exit(m.child_main(sys.argv[1]))"
+    with open(os.path.join(d, "stderr"), "w") as err:
+        p = subprocess.Popen([sys.executable] + argv + ["-c", code, d], stdin=subprocess.DEVNULL, stdout=subprocess.DEVNULL,
+                             stderr=err, env=env, cwd=HARNESS)
+    ch = {"mode": mode, "dir": d, "proc": p, "t0": time.time(), "n": len(items), "env": extra_env or None}
+    atexit.register(_child_cleanup, ch)  # whatever happens in between, nothing is left behind
+    return ch
+
+
+def _child_cleanup(ch):
+    import shutil
+
+    if ch["proc"].poll() is None:
+        ch["proc"].kill()
+    shutil.rmtree(ch["dir"], ignore_errors=True)
+
+
+def child_result(ch):
+    """the child's answer (dict); Infra when it did not answer"""
+    import shutil
+
+    try:
+        try:
+            rc = ch["proc"].wait(timeout=CHILD_TIMEOUT)
+        except subprocess.TimeoutExpired:
+            ch["proc"].kill()
+            raise Infra(f"child interpreter [{ch['mode']}] did not finish within {CHILD_TIMEOUT} s")
+        try:
+            with open(os.path.join(ch["dir"], "result.json")) as fh:
+                res = json.load(fh)
+        except (OSError, ValueError):
+            err = open(os.path.join(ch["dir"], "stderr")).read()[-1500:]
+            raise Infra(f"child interpreter [{ch['mode']}] gave no answer (rc={rc}): {err}")
+        res["wall_s"] = round(time.time() - ch["t0"], 2)
+        if res.get("fatal") is None and (res.get("optimize") != CHILD_MODES[ch["mode"]][2] or not res.get("asserts_stripped")):
+            raise Infra(f"child interpreter [{ch['mode']}] does not run optimised: {res.get('optimize')}")
+        return res
+    finally:
+        shutil.rmtree(ch["dir"], ignore_errors=True)
+
+
+def children_start(items, extra_env=None):
+    """one child per mode; the last one also gets the environment variables the source under test reads (set to 1)"""
+    modes = list(CHILD_MODES)
+    return [child_start(mode, items, extra_env if (extra_env and mode == modes[-1]) else None) for mode in modes]
+
+
+def children_collect(ctx, children):
+    for ch in children:
+        res = child_result(ch)
+        mode = ch["mode"]
+        ctx.count(f"ambient:child-interpreter:{mode}:calls", res.get("done", 0))
+        ctx.notes.append(f"child interpreter [{mode}]: {res.get('done', 0)} calls, {len(res.get('failures', []))} differences, "
+                         f"sys.flags.optimize={res.get('optimize')}, {res.get('child_s')} s in the child after start-up (running beside the parent; "
+                         f"collected after {res['wall_s']} s)")
+        if res.get("fatal") is not None:
+            ctx.fail("library-unusable-in-child-interpreter", dict({"op": "child", "mode": mode, "call": None}, **({"env": ch["env"]} if ch["env"] else {})),
+                     f"under [{mode}] the library cannot even be imported: {res['fatal']}", actual=res["fatal"])
+            continue
+        for f in res.get("failures", []):
+            ctx.case(("child", mode, f["key"]))
+            ctx.fail("interpreter-option-dependent-result", dict({"op": "child", "mode": mode, "call": f["key"]}, **({"env": ch["env"]} if ch["env"] else {})),
+                     f"{f['key'][0]}({', '.join(str(k) for k in f['key'][1:])}) gives {f['actual']} under [{mode}]",
+                     expected=f["expected"], actual=f["actual"])
+
+
+def child_main(d):
+    """runs in the child interpreter: the sample of every codec against the expected values of the parent"""
+    t0 = time.time()
+    res = {"optimize": sys.flags.optimize, "hashseed": os.environ.get("PYTHONHASHSEED"), "fatal": None, "failures": [], "done": 0}
+    try:
+        assert False, "asserts are executed"
+        res["asserts_stripped"] = True
+    except AssertionError:
+        res["asserts_stripped"] = False
+    out = sys.stdout
+    sys.stdout = open(os.devnull, "w")  # whatever the library prints is not part of the answer
+    try:
+        logging.disable(logging.CRITICAL)
+        with open(os.path.join(d, "job.json")) as fh:
+            job = json.load(fh)
+        try:
+            M = _mbxml()
+            from okdmr.dmrlib.motorola.lrrp import LRRP  # noqa
+        except BaseException as e:  # noqa
+            res["fatal"] = f"{type(e).__name__}: {e}"
+            M = None
+        if M is not None:
+            for key, want in job["items"]:
+                got = probe_exec(M, key)
+                res["done"] += 1
+                if got != want and len(res["failures"]) < 200:
+                    res["failures"].append({"key": key, "expected": want, "actual": got})
+    finally:
+        sys.stdout = out
+        res["child_s"] = round(time.time() - t0, 2)
+        tmp = os.path.join(d, "result.json.tmp")
+        with open(tmp, "w") as fh:
+            json.dump(res, fh)
+        os.rename(tmp, os.path.join(d, "result.json"))
+    return 0
+
+
 # ---------------------------------------------------------------- the same codecs under other ambient settings
 def run_ambient(ctx, M):
     """result depends on ambient process configuration: time zone, locale, decimal context.  The date-time part
@@ -1349,6 +1769,18 @@ def run_ambient(ctx, M):
     keys = probe_keys(ctx, M)
     baseline = run_probe(ctx, M, keys, None, None)
     ctx.count("ambient:probe-calls-per-setting", len(keys))
+    # a wider sample of the whole oracle for the settings that change what the interpreter executes
+    wkeys = keys + wide_keys(ctx, M)
+    wbase = baseline + run_probe(ctx, M, wkeys[len(keys):], None, None)
+    ctx.count("ambient:probe-calls-per-setting(wide sample: logging on / broken stdout / library DEBUG / child interpreters)", len(wkeys))
+    import okdmr.dmrlib.motorola.lrrp as lrrp_mod
+    import okdmr.dmrlib.motorola.mbxml as mbxml_mod
+
+    env_names = [e for e in source_env_names(mbxml_mod, lrrp_mod) if e not in _ENV_KEYS]
+    ctx.count("ambient:environment-variables-read-by-the-source-under-test", len(env_names))
+    # the child interpreters work while this process goes on; their answers are collected at the end
+    children = children_start([[key, want if want is not None else wbase[n]] for n, (key, want) in enumerate(wkeys)],
+                              {e: "1" for e in env_names})
     generic = generic_instants(ctx)
     years = list(range(2000, 2100)) if ctx.thorough() else sorted(
         {2000, 2001, 2010, 2021, 2024, 2037, 2038, 2050, 2099} | {ctx.rng.randrange(2000, 2100) for _ in range(2)})
@@ -1410,6 +1842,19 @@ def run_ambient(ctx, M):
     for name in DECIMAL_CONTEXTS:
         others.append({"decimal": name})
     others.append({"decimal": "prec=1,ROUND_UP", "tz": "AEST-10AEDT,M10.1.0,M4.1.0/3", "locale": "C"})
+    # interpreter / process state: logging switched on, broken standard streams, warnings as errors, the global random
+    # generator reseeded before every call, a thread that is not the main one; alone and combined
+    state = [{"logging": name} for name in LOGGING_SETTINGS] + [{"stdout": name} for name in STDOUT_SETTINGS]
+    for value in ("1", "0", ""):
+        state += [{"env": {e: value}} for e in env_names]
+    state += [{"library_debug": True}, {"library_debug": True, "logging": "root=DEBUG,library=DEBUG"},
+              {"warnings": "error"}, {"random": 0}, {"random": 20030630}, {"thread": "worker"}, {"settrace": True},
+              {"logging": "root=DEBUG,library=DEBUG", "stdout": "stdout-raises-OSError", "warnings": "error", "random": 1},
+              {"logging": "root=DEBUG,library=DEBUG", "thread": "worker", "tz": "CET-1CEST,M3.5.0,M10.5.0/3"},
+              {"logging": "root=NOTSET,library=NOTSET", "stdout": "stdout+stderr-None", "decimal": "prec=1,ROUND_UP"}]
+    others += state
+    wide = [state[0], {"stdout": "stdout-raises-OSError"}, {"library_debug": True}, state[-3]]
+    ctx.count("ambient:interpreter-state-settings(logging / streams / warnings / random / thread)", len(state))
     cet = parse_posix_tz("CET-1CEST,M3.5.0,M10.5.0/3")
     sample = [s for _, s in zone_instants(ctx, cet, years[:4], 1)][::3] + generic[::2]
     for cfg in others:
@@ -1420,8 +1865,12 @@ def run_ambient(ctx, M):
                 ctx.case(("amb-it", amb_text(cfg), s, form))
                 ctx.count("ambient:infotime:locale/decimal-context")
                 it_check(ctx, M, s, form, cfg, wl, dl, n)
-            run_probe(ctx, M, keys, cfg, baseline)
-        ctx.count("ambient:locale/decimal-settings")
+            if cfg in wide:
+                run_probe(ctx, M, wkeys, cfg, wbase)
+                ctx.count("ambient:interpreter-state-settings-run-on-the-wide-sample")
+            else:
+                run_probe(ctx, M, keys, cfg, baseline)
+        ctx.count("ambient:locale/decimal-settings" if cfg not in state else "ambient:interpreter-state-settings-run")
     for k, s in enumerate(generic):
         naive_later.append((None, s, OTHER_FORMS[k % len(OTHER_FORMS)]))
     for cfg, s, form in naive_later:
@@ -1430,6 +1879,8 @@ def run_ambient(ctx, M):
             ctx.case(("amb-it", amb_text(cfg), s, form))
             ctx.count(f"ambient:infotime:form={form}")
             it_check(ctx, M, s, form, cfg, wl, dl, n)
+    ctx.count("ambient:log-records-formatted-by-the-capturing-handler", LOG_RECORDS[0])
+    children_collect(ctx, children)
     if not ctx.search_only and ctx.driver_ok:
         ctx.correspond("write_infotime (other time zones / locales / decimal contexts)", list(wl))
         ctx.correspond("as_xml info-time (other time zones / locales / decimal contexts)", list(dl))
@@ -1461,7 +1912,15 @@ def run(ctx):
         "the tz database is present, every locale available, three decimal contexts; for each zone the skipped and the "
         "repeated local hours of 11 years (all 100 in thorough) computed from the POSIX rule by the harness (confirmed "
         "by the Lean calendar and by libc), the seconds and minutes around them, their UTC readings, calendar "
-        "boundaries, the 32-bit time_t limit, and a sample of every other codec.  random octets through all four "
+        "boundaries, the 32-bit time_t limit, and a sample of every other codec.  INTERPRETER / PROCESS STATE: the same "
+        "sample (uintvar / sintvar on both sides of every septet and sign-septet boundary, float grids p=1..3 with integer "
+        "parts whose bit length is a multiple of 7, lat/long, info-time in every argument form, write_fraction) and the "
+        f"date-time sample under {len(LOGGING_SETTINGS)} logging configurations (root and library loggers at DEBUG / NOTSET / INFO, "
+        "root WARNING + library DEBUG, root DEBUG + library ERROR; logging.disable lifted, a handler that formats every record), "
+        f"{len(STDOUT_SETTINGS)} broken standard-stream settings (write raises OSError, closed file, None; stdout alone and with stderr), "
+        "warnings turned into errors, the global random generator reseeded before every call, a worker thread, and three "
+        "combinations; one child interpreter per mode (python -O with PYTHONHASHSEED=1, PYTHONOPTIMIZE=2 with "
+        "PYTHONHASHSEED=4242) re-runs the sample against the parent's expected values.  random octets through all four "
         "readers.  A case is non-trivial unless the value is 0; distinct = distinct (codec, value[, precision][, setting])."
     )
     ctx.trusted_base += [
@@ -1475,6 +1934,8 @@ def run(ctx):
         "both are compared with the code on every value of this run",
         "Python's round(x, 6) is taken to be correctly rounded half-to-even on the exact binary value; datetime.strptime's calendar is modelled",
         "the expected date-time fields come from the digits themselves (harness) and from the Lean model; neither reads TZ, locale or any other ambient state",
+        "child interpreters (python -O / PYTHONOPTIMIZE=2) execute harness/props/c14.py::probe_exec on keys and expected values computed by the "
+        "parent (independent encoders, or the parent's own result where the harness has no closed form); the child confirms that its asserts are stripped",
     ]
     ctx.assumptions += [
         "precision small enough that 128**precision is a finite double (p <= 146); the property asks for p = 1..3",
@@ -1483,6 +1944,10 @@ def run(ctx):
         "negative latitudes/longitudes raise OverflowError in to_bytes (unsigned four octets): outside the writers' domain, not part of the property",
         "an aware datetime / a datetime with microseconds is written with its own wall-clock fields (what the code does); "
         "ambient settings are switched with os.environ + time.tzset / locale.setlocale / decimal.setcontext in this process",
+        "under python -O the writers' range assertions do not run: only values inside the ranges of the property are given to the child "
+        "interpreters (rejection of out-of-range values is an assert and is checked in the parent only)",
+        "forced thread interleavings and a logging handler / sys.stdout that raises from inside logging are not exercised "
+        "(the property does not speak of concurrency; print() is only reached with from_bytes(debug=True))",
     ]
     run_uint(ctx, M)
     run_sint(ctx, M)
@@ -1494,6 +1959,13 @@ def run(ctx):
     ctx.exhaustive = False
 
 
+SAID = []
+
+
+def say(*a):
+    SAID.append(" ".join(str(x) for x in a))
+
+
 def model_says(lines):
     """run the compiled Lean model on protocol lines (best effort: the driver may not be built)"""
     import subprocess
@@ -1502,11 +1974,11 @@ def model_says(lines):
 
     exe = os.path.join(BIN, "drv_c14")
     if not os.path.exists(exe):
-        print("model: driver not built")
+        say("model: driver not built")
         return
     out = subprocess.run([exe], input="\n".join(lines) + "\n", capture_output=True, text=True).stdout.split("\n")
     for l, o in zip(lines, out):
-        print(f"model          {l} -> {o}")
+        say(f"model          {l} -> {o}")
 
 
 def replay(obj):
@@ -1521,10 +1993,39 @@ def replay(obj):
     cfg = inp.get("ambient")
     if cfg:
         print(f"ambient setting of the process for this replay: {amb_text(cfg)}")
-    with ambient(cfg):
-        still = _replay(M, op, inp, f.get("expected"))
+    if op == "child":
+        mode = inp["mode"]
+        print(f"re-running the call in a child interpreter [{mode}]")
+        if inp.get("call") is None:
+            res = child_result(child_start(mode, [], inp.get("env")))
+            print("child:", res.get("fatal"))
+            return 1 if res.get("fatal") is not None else 0
+        print(f"this interpreter: {inp['call']} -> {probe_exec(M, inp['call'])}")
+        res = child_result(child_start(mode, [[inp["call"], f.get("expected")]], inp.get("env")))
+        for x in res.get("failures", []):
+            print(f"child [{mode}, sys.flags.optimize={res.get('optimize')}]: {x['key']} -> {x['actual']}   expected {x['expected']}")
+        if res.get("fatal") is not None:
+            print("child:", res["fatal"])
+        return 1 if res.get("failures") or res.get("fatal") is not None else 0
+    del SAID[:]
+    try:
+        with ambient(cfg):
+            still = _replay_in(M, op, inp, f, cfg)
+    finally:
+        for line in SAID:  # said while the setting (maybe a broken stdout) was active: printed now
+            print(line)
     print("expected:", f.get("expected"), "actual:", f.get("actual"))
     return still
+
+
+def _replay_in(M, op, inp, f, cfg):
+    if cfg and cfg.get("thread"):
+        box = []
+        th = threading.Thread(target=lambda: box.append(_replay(M, op, inp, f.get("expected"))))
+        th.start()
+        th.join()
+        return box[0] if box else 1
+    return _replay(M, op, inp, f.get("expected"))
 
 
 def _replay(M, op, inp, expected=None):
@@ -1534,24 +2035,24 @@ def _replay(M, op, inp, expected=None):
         w = call(M.write_uintvar, v)
         pre, tr = bytes.fromhex(inp.get("prefix", "")), bytes.fromhex(inp.get("trail", ""))
         r = call(M.read_uintvar, pre + w, len(pre)) if isinstance(w, str) else call(M.read_uintvar, pre + w + tr, len(pre))
-        print(f"implementation write_uintvar({v}) = {hx(w)}; read back {r}; canonical: {None if isinstance(w, str) else canon_u(w, v)}")
+        say(f"implementation write_uintvar({v}) = {hx(w)}; read back {r}; canonical: {None if isinstance(w, str) else canon_u(w, v)}")
         model_says([f"uv.write {v}"] + ([] if isinstance(w, str) else [f"uv.read {hx(pre + w + tr)} {len(pre)}"]))
         still = 0 if (not isinstance(w, str) and canon_u(w, v) is None and w == enc_u(v) and r == (v, len(pre) + len(w))) else 1
     elif op == "sintvar":
         v = inp["value"]
         w = call(M.write_sintvar, v)
         r = w if isinstance(w, str) else call(M.read_sintvar, w, 0)
-        print(f"implementation write_sintvar({v}) = {hx(w)}; read back {r}")
+        say(f"implementation write_sintvar({v}) = {hx(w)}; read back {r}")
         model_says([f"sv.write {v} 0"] + ([] if isinstance(w, str) else [f"sv.read {hx(w)} 0"]))
         still = 0 if (not isinstance(w, str) and canon_s(w, v, v < 0) is None and r == (v, len(w), -1 if v < 0 else 1)) else 1
         if "other" in inp:
             o = call(M.write_sintvar, inp["other"])
-            print(f"implementation write_sintvar({inp['other']}) = {hx(o)}")
+            say(f"implementation write_sintvar({inp['other']}) = {hx(o)}")
             still = 1 if o == w else still
     elif op == "negzero":
         w = call(M.write_sintvar, 0, True)
         r = w if isinstance(w, str) else call(M.read_sintvar, w, 0)
-        print(f"implementation write_sintvar(0, True) = {hx(w)}; read back {r}")
+        say(f"implementation write_sintvar(0, True) = {hx(w)}; read back {r}")
         still = 0 if r == (0, 1, -1) else 1
     elif op in ("ufloatvar", "sfloatvar"):
         signed = op == "sfloatvar"
@@ -1562,7 +2063,7 @@ def _replay(M, op, inp, expected=None):
         p = inp["precision"]
         w = call(M.write_sfloatvar if signed else M.write_ufloatvar, value, p)
         r = w if isinstance(w, str) else call(M.read_sfloatvar if signed else M.read_ufloatvar, w, 0)
-        print(f"implementation write_{op}({value!r}, {p}) = {hx(w)}; read back {r}")
+        say(f"implementation write_{op}({value!r}, {p}) = {hx(w)}; read back {r}")
         neg, num, exp = dyadic(value)
         model_says([f"sf.write {1 if neg else 0} {num} {exp} {p}" if signed else f"uf.write {num} {exp} {p}"]
                    + ([] if isinstance(w, str) else [f"{'sf' if signed else 'uf'}.read {hx(w)} 0"]))
@@ -1573,11 +2074,11 @@ def _replay(M, op, inp, expected=None):
         view = inp.get("view", "point-2d")
         b = call(M.write_latitude if op == "lat" else M.write_longitude, x)
         if isinstance(b, str):
-            print(f"implementation write raised {b}")
+            say(f"implementation write raised {b}")
         else:
             la, lo = xml_latlon(b, bytes(4), view) if op == "lat" else xml_latlon(bytes(4), b, view)
             text = la if op == "lat" else lo
-            print(f"implementation write_{op}({x!r}) = {b.hex()}; XML view ({view}) shows {text}")
+            say(f"implementation write_{op}({x!r}) = {b.hex()}; XML view ({view}) shows {text}")
             model_says([f"{op}.write {m}", f"{op}.decode {b.hex()}"])
             still = 0 if text == str(x) else 1
     elif op in ("latd", "lond"):
@@ -1585,12 +2086,12 @@ def _replay(M, op, inp, expected=None):
         which = op[:3]
         b = call(M.write_latitude if which == "lat" else M.write_longitude, x)
         if isinstance(b, str):
-            print(f"implementation write raised {b}")
+            say(f"implementation write raised {b}")
         else:
             la, lo = xml_latlon(b, bytes(4)) if which == "lat" else xml_latlon(bytes(4), b)
             text = la if which == "lat" else lo
             want = str(micro_round(x) / 1e6)
-            print(f"implementation write_{which}({x!r}) = {b.hex()}; XML view shows {text}; six decimals of the value: {want}")
+            say(f"implementation write_{which}({x!r}) = {b.hex()}; XML view shows {text}; six decimals of the value: {want}")
             if x >= 0:
                 neg, num, exp = dyadic(x)
                 model_says([f"{which}.writed {num} {exp}", f"{which}.decode {b.hex()}"])
@@ -1600,12 +2101,12 @@ def _replay(M, op, inp, expected=None):
         arg = it_arg(s, form)
         b = call(M.write_infotime, arg)
         text = b if isinstance(b, str) else xml_infotime(b)
-        print(f"implementation write_infotime({arg!r}) = {hx(b)}; XML view shows {text!r}")
+        say(f"implementation write_infotime({arg!r}) = {hx(b)}; XML view shows {text!r}")
         model_says([f"it.write {s}"] + ([] if isinstance(b, str) else [f"it.decode {b.hex()}"]))
         still = 0 if text == s else 1
     elif op == "probe":
         key = inp["call"]
         got = probe_exec(M, key)
-        print(f"implementation {key} -> {got}")
+        say(f"implementation {key} -> {got}")
         still = 0 if got == expected else 1
     return still
